@@ -258,6 +258,9 @@ const PROGRAMS: &[&str] = &[
 const TOKENS: &[&str] = &[
     "(", ")", "[", "]", "{", "}", "#(", "'", "`", ",", ",@", ".", "...", "#t", "#f", "#\\a", "#\\", "#\\x", "#\\space", "\"", "\"a\"", "\\", ";", "#|", "|#", "#;",
     "1", "-", "+", "1/2", "1/0", "#x", "#e1.5", "#i1/3", "1e400", "-0.0", "lambda", "define", "if", "quote", "let", "cond", "else", "=>", "set!", "x", "λ",
+    "#\\x100000000", "#\\xFFFFFFFFFFFF", "#\\x0000000041", "\"\\x100000000;\"", "a\\x100000000;b", "#xFFFFFFFFFFFFFFFFFFFFFFFF", "-1e400", "1e-400",
+    "#e1e39", "#e-1e39", "#e1e400", "#x#e10", "#b#i101", "#d#d1", "#X1F", "#E1.5", "#e#X10", "#T", "#F", "#e+inf.0", "#e-nan.0", "+nan.0", "1/2/3", "#e1/0",
+    "99999999999999999999999999999999999999999", "#o777777777777777777777777", "#x-FF", "a\\x41;", "\\x;", "\\x41", "#\\x-1", "#\\xD800", "#\\x110000",
     "#!eof", "#0=", "|a b|", "\n", "\t", " ", "\u{a0}", "\u{2028}", "\u{feff}", "😀",
 ];
 
